@@ -173,3 +173,45 @@ Proof.
   - now apply write_file_no_touch.
   - apply write_file_untouched. intros q Hin. exact (proj1 (Hq q Hin)).
 Qed.
+
+(* ---------------- the general relation contains the stricter ones ---------------- *)
+Lemma handles_ok_step h c : handles_ok h = true -> touches_md c = false -> post_ok c = true -> handles_ok (handles_step h c) = true.
+Proof.
+  unfold handles_ok. intros Hh Ht Hp. destruct c as [p|p t|p d|p|a b|p]; cbn [handles_step]; try exact Hh; try discriminate.
+  - cbn [post_ok] in Hp. unfold touches_md in Ht. cbn [affects] in Ht. rewrite Ht in Hp. cbn [orb] in Hp.
+    cbn [forallb]. now rewrite Hp, Hh.
+  - rewrite forallb_forall in *. intros q Hq. apply filter_In in Hq. apply Hh. tauto.
+Qed.
+
+Lemma check_gen_post refs : forall post h, handles_ok h = true ->
+  forallb (fun c => untouched c refs && post_ok c) post = true -> check_gen refs h post = true.
+Proof.
+  induction post as [|c r IH]; intros h Hh H; [reflexivity|].
+  cbn [forallb] in H. apply andb_true_iff in H. destruct H as [Hc Hr]. apply andb_true_iff in Hc. destruct Hc as [Hu Hp].
+  cbn [check_gen]. rewrite Hu. cbn [andb]. destruct (touches_md c) eqn:Tc.
+  - rewrite Hh. cbn [andb]. apply forallb_forall. intros x Hx. rewrite forallb_forall in Hr. specialize (Hr x Hx).
+    apply andb_true_iff in Hr. tauto.
+  - apply IH; [now apply handles_ok_step | exact Hr].
+Qed.
+
+Lemma untouched_md_cmd_refs c refs : untouched c (md_name :: cmd_name :: refs) = true ->
+  touches_md c = false /\ untouched c refs = true.
+Proof.
+  unfold untouched, touches_md. cbn [forallb]. intros H. apply andb_true_iff in H. destruct H as [H1 H]. apply andb_true_iff in H.
+  destruct H as [_ H]. split; [now apply negb_true_iff in H1 | exact H].
+Qed.
+
+Theorem sym_is_gen refs tr : check_safe_trace_sym refs tr = true -> check_safe_gen refs tr = true.
+Proof.
+  unfold check_safe_trace_sym, check_safe_gen. pose proof (split_sum_app tr) as E.
+  destruct (split_sum tr) as [pre post]. cbn [fst snd] in E. intros H.
+  apply andb_true_iff in H. destruct H as [H _]. apply andb_true_iff in H. destruct H as [H H3].
+  apply andb_true_iff in H. destruct H as [H1 H2].
+  assert (Hno : existsb touches_md pre = false /\ forallb (fun c => untouched c refs) pre = true).
+  { clear E H2. induction pre as [|c r IH]; [split; reflexivity|]. cbn [forallb] in H1. apply andb_true_iff in H1. destruct H1 as [Hc Hr].
+    destruct (untouched_md_cmd_refs c refs Hc) as [A B]. destruct (IH Hr) as [I1 I2]. cbn [existsb forallb]. now rewrite A, B, I1, I2. }
+  destruct Hno as [Hno Hu]. rewrite E, (check_gen_app refs pre [] post Hno Hu).
+  apply orb_true_iff in H2. destruct H2 as [H2|H2].
+  - destruct post; [reflexivity | discriminate].
+  - unfold open_handles in H2. destruct (fold_left handles_step pre []); [|discriminate]. now apply check_gen_post.
+Qed.
